@@ -48,7 +48,7 @@ func init() {
 		CaseTimeout: 120 * time.Second,
 		ChildSetup:  func() { installPointHooks(false) },
 		Require: func(tier string) map[string]int64 {
-			return map[string]int64{"histories": 800, "profiles_inspected": 800, "library_goroutines_seen_while_open": 800}
+			return map[string]int64{"histories": 500, "profiles_inspected": 500, "library_goroutines_seen_while_open": 500}
 		},
 		Assumptions: []string{
 			"a goroutine belongs to the library if its stack has a frame in nhooyr.io/websocket or it was created by one; the harness joins every goroutine of its own that is inside a library call before inspecting",
